@@ -14,19 +14,23 @@ CONTROL_EXCEPTIONS = {
                                              'filter is column-uniform; answered "keep" in the runs (limitation recorded in DESIGN.md)',
     ('percentile', 'nan-test'): 'in the outlier screen (the function that calls np.percentile / nanpercentile): only selects '
                                 'nanpercentile vs percentile, which agree on every NaN-free column (library model)',
-    ('nanargmin', 'nan-test'): 'in the selection of the best estimate (the function that calls np.nanargmin): only gates a warning '
-                               'and a replacement whose mask is per column, so columns that are not all-NaN are untouched '
-                               '(R-ARGMIN checks exactly that)',
+    ('nanargmin', 'nan-test'): 'in the selection of the best estimate (the function that calls np.nanargmin, or whose result '
+                               'indexes the flattened tables): only gates a warning and a treatment of columns without any '
+                               'number, so columns that are not all-NaN are untouched (R-ARGMIN checks exactly that)',
     ('percentile', 'dtype-test'): 'dtype only',
     ('convolve1d', 'dtype-test'): 'dtype only (the function that applies the Richardson rule with convolve1d)',
 }
 KERNEL_ALIASES = {'nanpercentile': 'percentile'}
+SELECTION_ROLE = set()      # qualified names of the function found by selection_function(): it is 'the function that calls
+                            # np.nanargmin' of the table above however it is implemented
 
 
 def control_exception(info, kind):
     """info: Explorer.site_info entry (function, kind, logical shape, names called by the enclosing function)"""
     fn = info[0] if info else ''
     calls = {KERNEL_ALIASES.get(c, c) for c in (info[3] if info and len(info) > 3 else ())}
+    if fn in SELECTION_ROLE or any(fn.startswith(q + '.') for q in SELECTION_ROLE):
+        calls.add('nanargmin')
     for (key, k), why in CONTROL_EXCEPTIONS.items():
         if k != kind:
             continue
@@ -43,10 +47,10 @@ RULES = {
                 'dependence through every numpy operation of the pipeline) only on input element c and on the extra '
                 'call arguments; the only whole-array predicates steering control flow are the tabled exceptions',
     'R-SHAPE': 'the derivative (and every full_output field) has the shape of x, for x of rank 0..3',
-    'R-ARGMIN': 'selection of the best estimate per element: in the table handed to nanargmin / nanmin by _Limit._get_arg_min a NaN '
-                'error estimate of a column that has valid estimates is still NaN (only all-NaN columns are neutralised), so an invalid '
-                'estimate of one element can never be selected because another element has none; abstract run on a table with one '
-                'all-NaN and one mixed column',
+    'R-ARGMIN': 'selection of the best estimate per element (the function whose result indexes the flattened tables): run on '
+                'concrete tables with one all-NaN column and one column holding two numbers and a NaN, it returns for the second '
+                'column the flat index of the smaller number - an invalid estimate of one element is never selected because '
+                'another element has none, however the selection is implemented',
     'R-FORWARD': 'every evaluation of the user function receives the *args and **kwds of the call unchanged',
 }
 
@@ -60,8 +64,10 @@ def run(ctx):
         '(column-wise numpy/scipy routines compute each column independently).')
     rep.assume('numpy/scipy axis=0 kernels (convolve1d, percentile, nanargmin, nanmin, diff) treat columns independently')
     for rid, text in RULES.items():
-        rep.rule(rid, text, {'R-COLSEP': 12, 'R-SHAPE': 12, 'R-FORWARD': 12, 'R-ARGMIN': 1}[rid])
+        rep.rule(rid, text, {'R-COLSEP': 12, 'R-SHAPE': 12, 'R-FORWARD': 12, 'R-ARGMIN': 6}[rid])
     core = ctx.repo.module('core')
+    SELECTION_ROLE.clear()
+    SELECTION_ROLE.update(c[0] for c in selection_function(ctx.repo.module('limits')))
     shapes = [(), (1,), (3,), (2, 2), 'T(3, 2)'] if ctx.tier == 'quick' else [(), (1,), (3,), (2, 2), (2, 1, 2), (1, 3), 'T(3, 2)', 'T(2, 2)']
     configs = [('central', 1, 2), ('central', 2, 2), ('forward', 1, 2), ('backward', 2, 3), ('complex', 1, 2),
                ('complex', 3, 2), ('multicomplex', 1, 2), ('multicomplex', 2, 2), ('central', 0, 2)]
@@ -85,59 +91,151 @@ def run(ctx):
     rep.notes['trusted_base'] = ['python ast', 'ndverif abstract interpreter, data-dependence domain and numpy summaries']
 
 
-class _Stop(Exception):
-    pass
+def selection_function(lim):
+    """The stage that selects the best estimate, found by its role and not by its name or by the kernels it uses: the
+    function of limits.py whose result indexes the flattened tables (`table.flat[result]`) in the function that calls it.
+    -> [(qualname, FunctionDef, ClassInfo or None)]"""
+    import ast
+    members = {}
+    for name, node in lim.funcs.items():
+        members.setdefault(name, []).append(('%s.%s' % (lim.name, name), node, None))
+    holders = [(node, None) for node in lim.funcs.values()]
+    for ci in lim.classes.values():
+        for name, entries in ci.own_members().items():
+            for kind, node in entries:
+                if isinstance(node, ast.FunctionDef):
+                    members.setdefault(name, []).append(('%s.%s.%s' % (lim.name, ci.name, name), node, ci))
+                    holders.append((node, ci))
+    found = {}
+    for node, ci in holders:
+        made_by = {}
+        for sub in ast.walk(node):
+            if isinstance(sub, ast.Assign) and len(sub.targets) == 1 and isinstance(sub.targets[0], ast.Name) and \
+                    isinstance(sub.value, ast.Call):
+                fn = sub.value.func
+                callee = fn.attr if isinstance(fn, ast.Attribute) else (fn.id if isinstance(fn, ast.Name) else None)
+                if callee in members:
+                    made_by[sub.targets[0].id] = callee
+        for sub in ast.walk(node):
+            if isinstance(sub, ast.Subscript) and isinstance(sub.value, ast.Attribute) and sub.value.attr == 'flat' and \
+                    isinstance(sub.slice, ast.Name) and sub.slice.id in made_by:
+                for cand in members[made_by[sub.slice.id]]:
+                    found[cand[0]] = cand
+    return sorted(found.values(), key=lambda c: c[0])
+
+
+class NaNC(object):
+    """A concrete NaN in a table of numbers: every comparison with it is false, only != is true."""
+    is_elem_ = True
+
+    def isnan_(self):
+        return True
+
+    def kind_(self):
+        return 'f'
+
+    def __repr__(self):
+        return 'NaN'
+
+    def cmp_(self, op, other):
+        return op == '!='
+    rcmp_ = cmp_
+
+    def _b(self, *a):
+        return self
+    __add__ = __radd__ = __sub__ = __rsub__ = __mul__ = __rmul__ = __truediv__ = __rtruediv__ = __neg__ = _b
+    abs_ = real_ = imag_ = _b
+
+
+def _concrete_key(v):
+    import math
+    from .. import ndarr
+    from ..algebra import Poly
+    if getattr(v, 'isnan_', None) is not None and v.isnan_() is True:
+        return math.nan
+    c = ndarr.concrete_real(v)
+    if c is not None:
+        return c
+    if isinstance(v, Poly):
+        inf = Poly.sym('inf')
+        if (v - inf).is_zero():
+            return math.inf
+        if (v + inf).is_zero():
+            return -math.inf
+    raise AnalysisError('a min / max kernel applied to a value that is not a number of the table: %r' % (v,))
+
+
+def _concrete_kernel(name):
+    """numpy's (nan)(arg)min / max on tables of concrete numbers, NaN and +-inf - with numpy's rules: the plain kernels
+    return the first NaN, the nan-aware ones skip NaN and raise ValueError (arg) or return NaN on a column without numbers"""
+    import math
+    from ..ndarr import InterpValueError
+    nanaware, arg, big = name.startswith('nan'), 'arg' in name, name.endswith('max')
+
+    def fn(col):
+        keys = [_concrete_key(v) for v in col]
+        idx = list(range(len(col)))
+        if nanaware:
+            idx = [i for i in idx if not math.isnan(keys[i])]
+            if not idx:
+                if arg:
+                    raise InterpValueError('All-NaN slice encountered')
+                return col[0]
+        else:
+            nans = [i for i in idx if math.isnan(keys[i])]
+            if nans:
+                return nans[0] if arg else col[nans[0]]
+        best = idx[0]
+        for i in idx[1:]:
+            if (keys[i] > keys[best]) if big else (keys[i] < keys[best]):
+                best = i
+        return best if arg else col[best]
+
+    def hook(models, a, axis=None, **kw):
+        if kw.get('out') is not None or kw.get('keepdims'):
+            raise AnalysisError('np.%s with out= / keepdims' % name)
+        return models._reduce(a, axis, fn, name)
+    return hook
 
 
 def argmin_table(ctx):
     from ..absint import Interp
     from ..libmodels import Models
-    from ..algebra import Poly
-    from .c18 import NaNV
+    from .. import ndarr
     rep = ctx.rep
     lim = ctx.repo.module('limits')
-    from ..srcmodel import functions_calling
-    cands = functions_calling(lim, ('nanargmin',))
+    cands = selection_function(lim)
     if len(cands) != 1:
-        raise AnalysisError('anchor vanished: the function of limits.py that selects the best estimate with np.nanargmin '
-                            '(candidates: %s)' % [c[0] for c in cands])
+        raise AnalysisError('anchor vanished: the function of limits.py whose result selects the best estimates out of the '
+                            'flattened tables (candidates: %s)' % [c[0] for c in cands])
     qual, node, owner = cands[0]
     where = lim.where(node)
-    seen = []
-
-    def grab(models, a, axis=None, **kw):
-        seen.append(models.np_asarray(a))
-        raise _Stop()
-    models = Models(hooks={'np.nanargmin': grab, 'np.nanmin': grab, 'np.argmin': grab, 'np.min': grab})
-    I = Interp(ctx.repo, models, branch_oracle=lambda i, node, fr, v: None)
-    models.bind(I)
-    e1, e2 = Poly.sym('err1'), Poly.sym('err2')
-    nan = NaNV()
-    table = Arr((3, 2), [nan, nan, nan, e1, nan, e2])          # column 0 has no valid estimate, column 1 has two
-    try:
-        I.closure_for(lim, node, owner)(table)
-    except _Stop:
-        pass
-    except InterpRaise as exc:
-        rep.violation('R-ARGMIN', qual, where, {'raises': exc.exc_name, 'message': exc.msg[:100]},
-                      'a selection', 'one all-NaN column, one mixed column', key='argmin raises')
-        return
-    if not seen:
-        rep.undecided('R-ARGMIN', qual, 'no nanargmin / nanmin call seen', 'one all-NaN column, one mixed column')
-        return
-    t = seen[0]
-    problems = []
-    if t.shape != (3, 2):
-        problems.append('table of shape %s' % (t.shape,))
-    else:
-        col1 = [t[r, 1] for r in range(3)]
-        if not isinstance(col1[0], NaNV):
-            problems.append('the NaN estimate of the mixed column became %r: it can now be selected' % (col1[0],))
-        if repr(col1[1]) != repr(e1) or repr(col1[2]) != repr(e2):
-            problems.append('valid estimates of the mixed column changed: %r' % (col1[1:],))
-    rep.check(not problems, 'R-ARGMIN', qual, where,
-              {'table_handed_to_the_selection': [repr(v) for v in t.items()], 'problems': problems[:2]},
-              'NaN stays NaN in columns that have valid estimates', 'one all-NaN column, one mixed column', key='argmin table')
+    hooks = {'np.' + nm: _concrete_kernel(nm) for nm in ('nanargmin', 'nanargmax', 'argmin', 'argmax', 'nanmin', 'nanmax',
+                                                         'min', 'max', 'amin', 'amax')}
+    nan = NaNC()
+    # column 0 has no valid estimate; column 1 has two and one NaN - in every position, with the smaller one above and below
+    for col in ([nan, 5, 2], [nan, 2, 5], [7, nan, 2], [2, nan, 7], [5, 2, nan], [2, 5, nan]):
+        label = 'table with an all-NaN column and the column %r' % (col,)
+        models = Models(hooks=hooks)
+        I = Interp(ctx.repo, models)
+        models.bind(I)
+        table = Arr((3, 2), [nan, col[0], nan, col[1], nan, col[2]])
+        want = min((r for r in range(3) if col[r] is not nan), key=lambda r: col[r]) * 2 + 1
+        try:
+            out = I.closure_for(lim, node, owner)(table)
+        except InterpRaise as exc:
+            rep.violation('R-ARGMIN', qual, where, {'raises': exc.exc_name, 'message': exc.msg[:100]},
+                          'a selection', label, key='argmin raises')
+            continue
+        except AnalysisError as exc:
+            rep.undecided('R-ARGMIN', qual, exc, label)
+            continue
+        got = None
+        if isinstance(out, Arr) and out.shape == (2,):
+            got = ndarr.concrete_real(out[1])
+        rep.check(got is not None and got == want, 'R-ARGMIN', qual, where,
+                  {'returned': repr(out), 'flat_index_of_the_smallest_valid_estimate': want},
+                  'the flat index of the smallest estimate that is not NaN', label, key='argmin table')
 
 
 def one(ctx, core, shape, method, n, order, full_output, rule_as=None, tuple_arg=False):
